@@ -97,7 +97,9 @@ func mkRemedy(r remedySpec, code int) sharedConfig.Remedy {
 	case sharedConfig.RemedyFixedResponse:
 		out.Config.FixedResponse = &sharedConfig.FixedResponseConfig{StatusCode: code}
 	case sharedConfig.RemedyRetry:
-		out.Config.Retry = &sharedConfig.RetryConfig{}
+		// one attempt, every status: acts (ModifyResponse) on the response leg and keeps no state afterwards
+		out.Config.Retry = &sharedConfig.RetryConfig{Attempts: 1, InitialCooldownSeconds: 1, CooldownMultiplier: 1,
+			Conditions: sharedConfig.RetryConfigConditions{StatusCode: []sharedConfig.Range[int]{{From: 100, To: 599}}}}
 	case sharedConfig.RemedyAuth:
 		out.Config.Authentication = &sharedConfig.AuthConfig{}
 	default:
@@ -151,7 +153,7 @@ type state struct {
 	pt       *config.EndpointPolicyTree
 	codes    map[int]string // fixed-response status code -> remedy name
 	nextCode int
-	onlyFix  bool // every declared remedy so far is a fixed-response one (precondition of `disp`)
+	onlyFix  bool // every declared remedy so far is a fixed-response or retry one (precondition of `disp`)
 }
 
 func (st *state) remedies(specs []remedySpec) []sharedConfig.Remedy {
@@ -162,7 +164,7 @@ func (st *state) remedies(specs []remedySpec) []sharedConfig.Remedy {
 			code = st.nextCode
 			st.nextCode++
 			st.codes[code] = r.name
-		} else {
+		} else if r.typ != int(sharedConfig.RemedyRetry) {
 			st.onlyFix = false
 		}
 		out = append(out, mkRemedy(r, code))
@@ -405,7 +407,19 @@ func (st *state) disp(method, url string, o *proto.Out) string {
 	if err != nil {
 		return "err"
 	}
-	first, n := "-", 0
+	first, n, resp := "-", 0, 0
+	count := func(v any) int {
+		k := 0
+		if raw, ok := v.([]byte); ok {
+			var m map[string][]any
+			if json.Unmarshal(raw, &m) == nil {
+				for _, l := range m {
+					k += len(l)
+				}
+			}
+		}
+		return k
+	}
 	for _, a := range acts {
 		switch a.Name {
 		case "status_code":
@@ -416,14 +430,9 @@ func (st *state) disp(method, url string, o *proto.Out) string {
 				}
 			}
 		case "request_active_remedies":
-			if raw, ok := a.Value.([]byte); ok {
-				var m map[string][]any
-				if json.Unmarshal(raw, &m) == nil {
-					for _, l := range m {
-						n += len(l)
-					}
-				}
-			}
+			n += count(a.Value)
+		case "response_active_remedies": // the early answer went through the response leg and was modified there
+			resp += count(a.Value)
 		}
 	}
 	if first == "-" {
@@ -431,7 +440,10 @@ func (st *state) disp(method, url string, o *proto.Out) string {
 		return "noop"
 	}
 	o.Count("disp-early")
-	return fmt.Sprintf("early=%s n=%d", first, n)
+	if resp > 0 {
+		o.Count("disp-early-response-leg-active")
+	}
+	return fmt.Sprintf("early=%s n=%d resp=%d", first, n, resp)
 }
 
 func main() {
